@@ -293,6 +293,39 @@ SelectOk(ev) ==
          ELSE SafeEq(RBool(Len(s.v) > 0), r.pmatch) /\ SafeEq(RBool(Len(s.v) > 0), r.f_match))
 
 ----------------------------------------------------------------------------
+(* the tree-level API of Value (not a listed property; the text paths of the byte-level     *)
+(* functions go through it)                                                                  *)
+Opt(o) == IF o.t = "none" THEN <<>> ELSE <<o.v>>
+ValueApiOk(ev) ==
+  LET d == ev.d[1]
+      r == ev.res
+      isnum == d.k = "num"
+      n == IF isnum THEN NumOf(d) ELSE UZero
+      name == IF Has(ev.a, "n") THEN ev.a.n ELSE <<>>
+  IN /\ r.t = "valueapi"
+     /\ r.ic = Opt(GetByName(d, name, TRUE))
+     /\ r.alen = (IF d.k = "arr" THEN <<Len(d.a)>> ELSE <<>>)
+     /\ r.keys = Opt(ObjectKeys(d))
+     /\ r.is = <<B(IsScalar(d)), B(d.k = "obj"), B(d.k = "arr"), B(d.k = "str"), B(isnum), B(d.k = "null"), B(d.k \in {"true", "false"}),
+                 B(isnum /\ AsI64(n) # <<>>), B(isnum /\ AsU64(n) # <<>>), B(isnum)>>
+     /\ r.i64 = (IF isnum THEN AsI64(n) ELSE <<>>)
+     /\ r.u64 = (IF isnum THEN AsU64(n) ELSE <<>>)
+     /\ r.f64 = (IF isnum THEN <<Tup(AsF64(n))>> ELSE <<>>)
+     /\ r.bool = (IF d.k \in {"true", "false"} THEN <<B(d.k = "true")>> ELSE <<>>)
+     /\ r.str = (IF d.k = "str" THEN <<Tup(d.s)>> ELSE <<>>)
+     /\ (Len(ev.d) >= 2 => r.eq = <<B(DocEq(d, ev.d[2])), B(Rank(d) = Rank(ev.d[2]) \/ (d.k \in {"true", "false"} /\ ev.d[2].k \in {"true", "false"}))>>)
+     /\ Tup(r.vec) = Tup(Encode(d))
+     /\ r.clone_eq = B(~(isnum /\ FALSE)) /\ r.default_is_null = 1
+RECURSIVE ShallowScalars(_)
+ShallowScalars(d) == CASE d.k = "arr" -> \A i \in 1..Len(d.a) : IsScalar(d.a[i])
+                      [] d.k = "obj" -> \A i \in 1..Len(d.o) : IsScalar(d.o[i][2])
+                      [] OTHER -> TRUE
+RandValueOk(ev) == ev.res.t = "rand" /\ IsDoc(ev.res.v) /\ ShallowScalars(ev.res.v) /\ Tup(ev.res.vec) = Tup(Encode(ev.res.v))
+                   /\ IsCanonical(ev.res.vec)
+\* From conversions: signed integers become i, unsigned u, f32 widens exactly, iterators build arrays / objects
+FromConvOk(ev) == SafeEq(RDoc(ev.a.want), ev.res)
+
+----------------------------------------------------------------------------
 (* surface grammars (C09, C16): the text was rendered from a.want by spec/PathText.tla *)
 SyntaxOk(ev, kind) ==
   LET a == ev.a
@@ -342,6 +375,9 @@ Accept(ev) ==
     [] op = "parse_value" -> ParseValueOk(ev)
     [] op = "render" -> RenderOk(ev)
     [] op = "serde" -> SerdeOk(ev)
+    [] op = "value_api" -> ValueApiOk(ev)
+    [] op = "rand_value" -> RandValueOk(ev)
+    [] op = "from_conv" -> FromConvOk(ev)
     [] op = "select" -> SelectOk(ev)
     [] op = "chain" -> ChainOk(ev)
     [] op = "deep" -> ev.res.t \in {"ok", "err"}
